@@ -322,7 +322,7 @@ def run(ctx):
             g = fns[m]
             a = commute_eq(mirror(canon_fn(f.hir, 'num')))
             b = commute_eq(canon_fn(g.hir, 'num'))
-            if a != b and G.gef(prog, f, mirror=True) == G.gef(prog, g):
+            if a != b and (G.gef(prog, f, mirror=True) == G.gef(prog, g) or sorted(G.canon_side(G.gef(prog, f, mirror=True, inline=True)), key=str) == sorted(G.canon_side(G.gef(prog, g, inline=True)), key=str)):
                 ctx.add(RULE, f, 'mirror-pair(%s/%s)' % (name, m), 'ok', '%s and %s are written differently, but their guarded effects are exact mirror images' % (name, m), props_of(prog, f, c09), f.line)
             elif a == b:
                 ctx.add(RULE, f, 'mirror-pair(%s/%s)' % (name, m), 'ok', '%s is the left/right mirror image of %s' % (name, m), props_of(prog, f, c09), f.line)
